@@ -167,3 +167,26 @@ func TestTagsOnPutObjectNeedTheTaggingPermission(t *testing.T) {
 		t.Errorf("PutObject with x-amz-tagging although s3:PutObjectTagging is denied: %d; tags now: %d %s", r.Status, tg.Status, tg.Body)
 	}
 }
+
+// A key with a trailing "/" names a directory object, never the file of the same name without it. The access decision was
+// taken for "secret/" and the tags, legal hold and retention were read and written on the file "secret" (the path is
+// joined for the attribute store and the separator falls away): an object-level Deny on bkt/secret was no obstacle.
+func TestTrailingSlashDoesNotReachTheAttributesOfTheFile(t *testing.T) {
+	g := gwtest.Start(t, gwtest.Options{})
+	u := g.AddUser("user1", "secret1", auth.RoleUser)
+	g.MustStatus(g.Put(g.RootC, "/bkt", nil, nil), 200, "create bucket")
+	g.MustStatus(g.Put(g.RootC, "/bkt/secret", []byte("x"), nil), 200, "put secret")
+	g.MustStatus(g.Put(g.RootC, "/bkt/secret?tagging", []byte(`<Tagging><TagSet><Tag><Key>k</Key><Value>v</Value></Tag></TagSet></Tagging>`), nil), 200, "tag secret")
+	g.MustStatus(g.Put(g.RootC, "/bkt?policy", policy(stmt("Allow", "user1", "s3:*", "arn:aws:s3:::bkt/*"), stmt("Deny", "user1", "s3:*", "arn:aws:s3:::bkt/secret")), nil), 200, "put policy")
+	if r := g.Get(u, "/bkt/secret?tagging", nil); r.Status != 403 {
+		t.Fatalf("the Deny on bkt/secret does not hold for ?tagging: %v", r)
+	}
+	if r := g.Get(u, "/bkt/secret/?tagging", nil); r.Status == 200 && strings.Contains(string(r.Body), "<Key>k</Key>") {
+		t.Errorf("GET /bkt/secret/?tagging discloses the tags of bkt/secret to user1: %s", r.Body)
+	}
+	g.Put(u, "/bkt/secret/?tagging", []byte(`<Tagging><TagSet><Tag><Key>mine</Key><Value>now</Value></Tag></TagSet></Tagging>`), nil)
+	g.Delete(u, "/bkt/secret/?tagging", nil)
+	if r := g.Get(g.RootC, "/bkt/secret?tagging", nil); r.Status != 200 || !strings.Contains(string(r.Body), "<Key>k</Key>") {
+		t.Errorf("after user1's PUT and DELETE of /bkt/secret/?tagging the tags of bkt/secret are: %v", r)
+	}
+}
